@@ -245,7 +245,11 @@ pub struct HvcCArray {
 }
 
 impl<R: Read + Seek> ReadBox<&mut R> for HvcCBox {
-    fn read_box(reader: &mut R, _size: u64) -> Result<Self> {
+    fn read_box(reader: &mut R, size: u64) -> Result<Self> {
+        // bytes of the box that follow the 23 fixed bytes: the arrays must fit in them
+        let mut remaining = size.saturating_sub(HEADER_SIZE + 23);
+        let overrun = || Error::InvalidData("hvcC arrays extend beyond the box");
+
         let configuration_version = reader.read_u8()?;
         let params = reader.read_u8()?;
         let general_profile_space = (params & 0b11000000) >> 6;
@@ -272,12 +276,18 @@ impl<R: Read + Seek> ReadBox<&mut R> for HvcCBox {
 
         let mut arrays = Vec::with_capacity(num_of_arrays as _);
         for _ in 0..num_of_arrays {
+            remaining = remaining.checked_sub(3).ok_or_else(overrun)?;
             let params = reader.read_u8()?;
             let num_nalus = reader.read_u16::<BigEndian>()?;
+            if num_nalus as u64 * 2 > remaining {
+                return Err(overrun());
+            }
             let mut nalus = Vec::with_capacity(num_nalus as usize);
 
             for _ in 0..num_nalus {
+                remaining = remaining.checked_sub(2).ok_or_else(overrun)?;
                 let size = reader.read_u16::<BigEndian>()?;
+                remaining = remaining.checked_sub(size as u64).ok_or_else(overrun)?;
                 let mut data = vec![0; size as usize];
 
                 reader.read_exact(&mut data)?;
